@@ -392,13 +392,66 @@ func rulesRepl(c *Ctx) {
 		// must reach a removal of the task entry before the worker returns
 		doneFn := at.Parent()
 		checkedF := false
+		isDeqFn := func(g *ssa.Function) bool {
+			for _, d := range dequeueFns {
+				if d == g {
+					return true
+				}
+			}
+			return false
+		}
+		// calls doneFn, directly or through a same-package function that does (the terminal
+		// assignment may sit in a helper of the function that ends the worker's item)
+		callsDone := func(cl ssa.CallInstruction) bool {
+			g := cl.Common().StaticCallee()
+			if g == nil {
+				return false
+			}
+			if g == doneFn {
+				return true
+			}
+			// synchronous calls only, two levels: a goroutine the function starts is another worker
+			found := false
+			var walk func(h *ssa.Function, d int)
+			walk = func(h *ssa.Function, d int) {
+				if h == nil || h.Blocks == nil || h.Pkg != doneFn.Pkg || d > 2 || found {
+					return
+				}
+				eachCall(h, func(x ssa.CallInstruction) {
+					if _, isGo := x.(*ssa.Go); isGo {
+						return
+					}
+					if x.Common().StaticCallee() == doneFn {
+						found = true
+						return
+					}
+					walk(x.Common().StaticCallee(), d+1)
+				})
+			}
+			walk(g, 1)
+			return found
+		}
 		for _, w := range fns {
+			if isDeqFn(w) {
+				continue
+			}
 			callsDeq := false
 			eachCall(w, func(call ssa.CallInstruction) {
-				for _, d := range dequeueFns {
-					if call.Common().StaticCallee() == d {
-						callsDeq = true
-					}
+				g := call.Common().StaticCallee()
+				if g == nil {
+					return
+				}
+				if isDeqFn(g) {
+					callsDeq = true
+					return
+				}
+				// the dequeue may be one helper further down (wait for a slot, then claim the item)
+				if g.Blocks != nil && g.Pkg == w.Pkg {
+					eachCall(g, func(c2 ssa.CallInstruction) {
+						if h := c2.Common().StaticCallee(); h != nil && isDeqFn(h) {
+							callsDeq = true
+						}
+					})
 				}
 			})
 			if !callsDeq {
@@ -415,7 +468,22 @@ func rulesRepl(c *Ctx) {
 						isDeq = true
 					}
 				}
-				if isDeq || g == doneFn {
+				if isDeq || g == doneFn || callsDone(call) {
+					return
+				}
+				// a step that leads to the dequeue (waiting for a slot) is not the fetch step
+				leads := false
+				if g.Blocks != nil {
+					eachCall(g, func(x ssa.CallInstruction) {
+						if _, isGo := x.(*ssa.Go); isGo {
+							return
+						}
+						if h := x.Common().StaticCallee(); h != nil && isDeqFn(h) {
+							leads = true
+						}
+					})
+				}
+				if leads {
 					return
 				}
 				ev := errResult(call)
@@ -426,7 +494,7 @@ func rulesRepl(c *Ctx) {
 				reachesDone := false
 				if h, _ := findPath(w, after(call), nil, func(in ssa.Instruction) bool {
 					cl, ok := in.(ssa.CallInstruction)
-					return ok && cl.Common().StaticCallee() == doneFn
+					return ok && callsDone(cl)
 				}, nil); h != nil {
 					reachesDone = true
 				}
